@@ -59,12 +59,19 @@ PARTIAL = ["tree level, error bound: proved are (i) one projector insertion at t
            "*_structure_partial theorems are kept with their weaker statements (identifiers / parents / children only). "
            "The kept dimensions and the order of the canonicalisation moves are INPUTS of that model (compared with the "
            "library by the comp stream of C02); that every kept dimension produced by the selection model is in "
-           "[1, max_bond_dim] is proved (keptDim_bounds) and lifted to the bonds of the structural result GIVEN that each "
-           "bond axis of the result carries a kept dimension (recursive_truncation_bonds_le_partial: that hypothesis is "
-           "checked by evaluation on a concrete network in Lean and by the oracle on every run; svd_truncation: oracle only)",
+           "[1, max_bond_dim] is proved (keptDim_bounds); for recursive_truncation it is lifted to EVERY bond of the "
+           "structural result without further hypothesis (recursive_truncation_bond_axes: the bond above the non-root node "
+           "c has exactly the dimension chosen for c; recursive_truncation_bonds_le; truncOrder_perm: every non-root node "
+           "is visited exactly once); svd_truncation: svd_truncation_bonds_le_partial - cut bonds stay <= max_bond_dim and "
+           "no bond grows GIVEN, per event, that the model's centreMove / contractSplit change only their own bond "
+           "(BondLocal: decided by evaluation on a concrete sweep in Lean, by the oracle on every run) and that a QR move "
+           "does not exceed the dimension of the bond it crosses",
            "value level: projector_matrix_value / projector_identity_value / projector_linear_value / "
            "recursive_truncation_value_telescope are about the flat-network semantics netValue with the inserted tensors "
-           "P, Pc ARBITRARY; that the tensors the library inserts are U1.conj(), U1.T of the SVD of the node tensor, that "
+           "P, Pc ARBITRARY; for P = U1.conj(), Pc = U1.T GIVEN the SVD contract in index form svd_projector_value proves "
+           "that P.Pc is the projector onto the kept left singular vectors, Pi.M = sum over the kept triples, = M when "
+           "nothing is discarded, and svd_projector_full_value that the network is then unchanged (U square or not); that "
+           "the library's projector IS the U1 of numpy's SVD of that matricisation is checked per run, not proved; that "
            "the contractions after the insertions (contract_all_children) leave the value unchanged (split_leaf_value read "
            "backwards, C02) and that netValue is what the library's dense state is are checked per run on integer "
            "tensors (stream value), not proved; the norm of the single-step defect is bounded by "
